@@ -51,6 +51,34 @@ def dom(k: Kind) -> str | None:
     return None
 
 
+ORDER_TAGS = {
+    "INSERTION-ORDER": "with workers that store their own results (shared-memory dict), or a run completed in several parts, insertion order is completion order - the array is permuted whenever elements are not stored in index order",
+    "LISTING-ORDER": "a directory listing has no defined order",
+    "NAME-ORDER": "file names sort as text ('__10__' before '__2__'), so from the 11th element on the values land on the wrong indices",
+}
+
+
+def _elementwise(fn) -> bool:
+    """Every return of `fn` is a comprehension / map over its single parameter (possibly through `<pool>.map(f, param)`)."""
+    ps = [p for p in fn.param_names() if p != "self"]
+    if len(ps) != 1:
+        return False
+    from .loader import walk_no_nested
+
+    rets = [r.value for r in walk_no_nested(fn.node) if isinstance(r, ast.Return) and r.value is not None]
+
+    def over_param(x: ast.AST) -> bool:
+        if isinstance(x, ast.Name):
+            return x.id == ps[0]
+        if isinstance(x, ast.Call) and (dotted(x.func) in ("map", "list", "tuple", "iter") or (isinstance(x.func, ast.Attribute) and x.func.attr == "map")) and x.args:
+            return over_param(x.args[-1])
+        if isinstance(x, (ast.ListComp, ast.GeneratorExp)) and len(x.generators) == 1 and not x.generators[0].ifs:
+            return over_param(x.generators[0].iter)
+        return False
+
+    return bool(rets) and all(over_param(r) for r in rets)
+
+
 @dataclass
 class Sig:
     params: dict[str, Kind]
@@ -282,8 +310,10 @@ class KindAnalysis:
                                 " - the external shape is () when no axis is mapped (`x[:] -> y[j]`): a 0-d array cannot be sliced (IndexError), the backend refuses a map the other backends run"))
                     return b
                 i = self.k(e.slice)
+                if i is not None and i[0] == "T" and isinstance(i[1], str) and i[1].endswith("+...") and i[1][:-4] == b[1]:
+                    return None  # a complete index followed by `...`
                 if i is not None and dom(i):
-                    self.need(e, i, ("T", b[1]), f"`{norm(e)}` indexes an array of that shape")
+                    self.need(e, i, ("T", b[1]), f"`{norm(e)}` indexes an array of that shape" + (" (leading positions, then `...`: that assumes these axes come FIRST)" if str(i[1]).endswith("+...") else ""))
                 return None
             if b[0] == "DICT":
                 i = self.k(e.slice)
@@ -299,12 +329,20 @@ class KindAnalysis:
                 return ("COND", t.id, self.k(e.body), self.k(e.orelse))
             a, b = self.k(e.body), self.k(e.orelse)
             return a if a == b else None
+        if isinstance(e, ast.UnaryOp) and isinstance(e.op, ast.Invert):
+            inner = self.k(e.operand)
+            return inner if inner and inner[0] in ("FLATMASK", "MASKARR") else None
         if isinstance(e, ast.Tuple):
             # (*a, *b): concatenation - ordered "all of a, then all of b", which is NOT the interleaved FULL order
             if e.elts and all(isinstance(x, ast.Starred) for x in e.elts):
                 ks = [self.k(x.value) for x in e.elts]  # type: ignore[union-attr]
                 if all(k_ is not None and k_[0] == "T" for k_ in ks):
                     return ("T", "+".join(k_[1] for k_ in ks)) if len(ks) > 1 else ks[0]  # type: ignore[index]
+            # (*a, ...): the positions of `a` FIRST, every remaining axis whole - only an index for an array whose leading axes are a's
+            if len(e.elts) >= 2 and isinstance(e.elts[-1], ast.Constant) and e.elts[-1].value is Ellipsis and all(isinstance(x, ast.Starred) for x in e.elts[:-1]):
+                ks = [self.k(x.value) for x in e.elts[:-1]]  # type: ignore[union-attr]
+                if all(k_ is not None and k_[0] == "T" for k_ in ks):
+                    return ("T", "+".join(k_[1] for k_ in ks) + "+...")  # type: ignore[index]
             return None
         if isinstance(e, ast.BinOp):
             if isinstance(e.op, ast.Mult):
@@ -333,6 +371,24 @@ class KindAnalysis:
             return self._call(e)
         return None
 
+    def _is_subseq(self, e: ast.AST) -> bool:
+        """`e` is (derived from) np.flatnonzero(...): the increasing sequence of the SELECTED linear indices, not all of them."""
+        if isinstance(e, ast.Name):
+            return e.id in getattr(self, "subseq", set())
+        if isinstance(e, ast.Call):
+            nm = dotted(e.func)
+            if nm in ("np.flatnonzero", "numpy.flatnonzero", "np.nonzero", "np.where") and len(e.args) == 1:
+                return True
+            if nm in ("list", "tuple", "sorted", "iter", "np.asarray", "np.array") and e.args:
+                return self._is_subseq(e.args[0])
+            if isinstance(e.func, ast.Attribute) and e.func.attr in ("tolist", "copy", "astype") :
+                return self._is_subseq(e.func.value)
+        if isinstance(e, ast.IfExp):
+            return self._is_subseq(e.body) or self._is_subseq(e.orelse)
+        if isinstance(e, ast.Subscript) and isinstance(e.slice, ast.Constant) and e.slice.value == 0:
+            return self._is_subseq(e.value)  # np.nonzero(m)[0]
+        return False
+
     def _is_storage(self, base: ast.AST) -> bool:
         if isinstance(base, ast.Name) and base.id == "self":
             return self.storage_self
@@ -342,6 +398,9 @@ class KindAnalysis:
     def _comp(self, e: ast.GeneratorExp | ast.ListComp) -> Kind:
         g = e.generators[0]
         saved = dict(self.env)
+        it0 = self.k(g.iter)
+        if len(e.generators) == 1 and it0 and it0[0] == "SEQ" and it0[1] and it0[1][0] == "VAL" and it0[1][1] in ORDER_TAGS:
+            return it0  # mapping / filtering keeps the order of the elements
         self._bind_iter(g.target, g.iter, e)
         out: Kind = None
         # tuple(x for x, m in zip(X, M) if m)  -> filter by mask polarity
@@ -380,7 +439,15 @@ class KindAnalysis:
             if inner and inner[0] == "SEQ":
                 return None
             return inner
-        if name in ("list", "sorted") and args:
+        if name in ("os.listdir", "os.scandir") or (isinstance(c.func, ast.Attribute) and c.func.attr in ("iterdir", "glob", "rglob") and not isinstance(c.func.value, ast.Constant)):
+            return ("SEQ", ("VAL", "LISTING-ORDER"))  # directory entries: arbitrary order
+        if name == "sorted" and args:
+            a0 = self.k(args[0])
+            if a0 and a0[0] == "SEQ" and a0[1] and a0[1][0] == "VAL" and a0[1][1] == "LISTING-ORDER":
+                # file names sort as TEXT ('__10__' < '__2__'): name order is not index order
+                return ("SEQ", ("VAL", "NAME-ORDER")) if not c.keywords else None
+            return a0
+        if name == "list" and args:
             return self.k(args[0])
         if name == "len" and args:
             a = self.k(args[0])
@@ -406,6 +473,17 @@ class KindAnalysis:
             return self.k(args[0])
         if name == "zip":
             ks = [self.k(a) for a in args if not isinstance(a, ast.Starred)]
+            sel = [a for a in args if not isinstance(a, ast.Starred) and self._is_subseq(a)]
+            full = [a for a in args if a not in sel and ((isinstance(a, ast.Starred) and ((self.k(a.value) or (None, None))[0] == "SEQ" and ((self.k(a.value) or (None, (None,)))[1] or (None,))[0] == "FLATMASK"))
+                                                      or (not isinstance(a, ast.Starred) and (self.k(a) or (None,))[0] in ("FLATMASK", "FLAT")))]
+            if sel and full:
+                self.report(c, False, f"`{norm(c)[:60]}` pairs the k-th SELECTED index (`{norm(sel[0])[:30]}`, a subset of the linear indices) with the k-th element of `{norm(full[0])[:30]}`, which runs over ALL linear indices: "
+                            "element k of the selection is classified by the mask value of element k - once earlier parts of the index space are stored, a part's own missing elements count as existing")
+            tagged = [k_ for k_ in ks if k_ and k_[0] in ("SEQ", "FLAT") and (k_[1] if k_[0] == "FLAT" else (k_[1] or (None, None))[1] if k_[1] and k_[1][0] == "VAL" else None) in ORDER_TAGS]
+            indexed = [k_ for k_ in ks if k_ and k_[0] == "SEQ" and k_[1] and k_[1][0] in ("LIN", "T", "POS")]
+            if tagged and indexed:
+                tag = tagged[0][1] if tagged[0][0] == "FLAT" else tagged[0][1][1]
+                self.report(c, False, f"`{norm(c)[:60]}` pairs the k-th index with the k-th value in {tag}: " + ORDER_TAGS[tag])
             doms = [k_ for k_ in ks if dom(k_)]
             for other in doms[1:]:
                 self.pair(c, doms[0], other, f"`{norm(c)[:60]}` pairs position-wise")
@@ -455,9 +533,23 @@ class KindAnalysis:
             a0 = self.k(args[0])
             if a0 and a0[0] == "SEQ" and a0[1] and a0[1][0] == "VAL":
                 return ("FLAT", a0[1][1])
+            if a0 and a0[0] == "FLATMASK" and name in ("np.array", "np.asarray"):
+                return a0
         if name == "np.flatnonzero" and args:
             a = self.k(args[0])
             return ("SEQ", ("LIN", a[1])) if a and a[0] == "FLATMASK" else None
+        if (name == "map" or (isinstance(c.func, ast.Attribute) and c.func.attr == "map")) and len(args) == 2:
+            it_ = self.k(args[1])
+            if it_ and it_[0] == "SEQ" and it_[1] and it_[1][0] == "VAL":
+                return it_  # element-wise: the order is kept
+        if len(args) == 1 and not c.keywords and name and "." not in name:
+            # a repo function that maps its one argument element by element keeps the order of the elements
+            a0 = self.k(args[0])
+            if a0 and a0[0] == "SEQ" and a0[1] and a0[1][0] == "VAL":
+                q_ = self.prog.resolve_name(self.fn.module, name, self.fn)
+                callee = self.prog.functions.get(q_) if q_ else None
+                if callee is not None and _elementwise(callee):
+                    return a0
         if name == "map" and len(args) == 2:
             f_, it = args[0], self.k(args[1])
             if isinstance(f_, ast.Attribute) and f_.attr in METHOD_SIGS and it and it[0] == "SEQ":
@@ -467,9 +559,8 @@ class KindAnalysis:
             return None
         if isinstance(c.func, ast.Attribute) and c.func.attr == "reshape" and args:
             b, s = self.k(c.func.value), self.k(args[0])
-            if b and s and b[0] == "FLAT" and s[0] == "T" and b[1] == "INSERTION-ORDER":
-                self.report(c, False, f"`{norm(c)[:60]}` lays the dict's values out in INSERTION order over {show(s)}: element k of the flat array is whatever was stored k-th, not the element with linear index k - "
-                            "with workers that store their own results (shared-memory dict) insertion order is completion order, so the array is permuted whenever tasks do not finish in index order")
+            if b and b[0] == "FLAT" and b[1] in ORDER_TAGS:
+                self.report(c, False, f"`{norm(c)[:60]}` lays values out in {b[1]}: element k of the flat array is the k-th value in that order, not the element with linear index k - " + ORDER_TAGS[b[1]])
                 return None
             if b and s and b[0] == "FLAT" and s[0] == "T":
                 self.need(c, s, ("T", b[1]), f"`{norm(c)[:60]}` reshapes the flat array")
@@ -672,6 +763,9 @@ class KindAnalysis:
                     if t.id in self.counters and isinstance(st.value, ast.Constant):
                         continue
                     self.env[t.id] = k
+                    if not hasattr(self, "subseq"):
+                        self.subseq = set()
+                    (self.subseq.add if self._is_subseq(st.value) else self.subseq.discard)(t.id)
                 elif isinstance(t, ast.Tuple) and k and k[0] == "PAIR":
                     for el, kk in zip(t.elts, k[1:]):
                         if isinstance(el, ast.Name):
@@ -681,6 +775,11 @@ class KindAnalysis:
                         if isinstance(el, ast.Name) and not (el.id in self.counters and isinstance(v, ast.Constant)):
                             self.env[el.id] = self.k(v)
                 elif isinstance(t, ast.Subscript):
+                    whole = (isinstance(t.slice, ast.Slice) and t.slice.lower is None and t.slice.upper is None and t.slice.step is None) or (isinstance(t.slice, ast.Constant) and t.slice.value is Ellipsis)
+                    tag = (k[1] if k[0] == "FLAT" else k[1][1] if k[0] == "SEQ" and k[1] and k[1][0] == "VAL" else None) if k else None
+                    if whole and isinstance(t.value, ast.Name) and tag in ORDER_TAGS:
+                        self.env[t.value.id] = ("FLAT", tag)  # `a[:] = values`: a now holds them in that order
+                        continue
                     self.k(t)  # checks the index
             return
         if isinstance(st, ast.AnnAssign) and isinstance(st.target, ast.Name) and st.value is not None:
